@@ -40,26 +40,42 @@ def plan(tier, seed):
             records = rng.choice([200, 400, 800]) if tag != "plain" else rng.choice([200, 500, 1000, 2000])
             maxlen = rng.choice([16, 256, 4096])
             delay = rng.choice([0, 50, 200, 500])
-            runs.append((tag, topo, threads, records, maxlen, rng.randrange(1, 10 ** 9), delay))
+            runs.append((tag, topo, threads, records, maxlen, rng.randrange(1, 10 ** 9), delay, 0))
+
+    def add_rounds(tag, n):
+        # many short rounds with a completeness check at every quiescent point (all threads at a barrier)
+        for i in range(n):
+            topo = [4, 1, 4, 2, 4, 3][i % 6]
+            threads = rng.choice([2, 3, 4])
+            per_round = rng.choice([1, 2, 3])
+            records = per_round * (4000 if tag == "plain" else 1200)
+            runs.append((tag, topo, threads, records, rng.choice([8, 16, 24]), rng.randrange(1, 10 ** 9),
+                         rng.choice([0, 0, 20]), per_round))
 
     if tier == "quick":
         add("gtsan", 8)
         add("plain", 24)
+        add_rounds("plain", 12)
+        add_rounds("gtsan", 2)
     else:
         add("gtsan", 60)
         add("ctsan", 32)
         add("plain", 400)
         add("gasan", 20)
+        add_rounds("plain", 120)
+        add_rounds("gtsan", 12)
+        add_rounds("ctsan", 6)
     return runs
 
 
 def _run(arg):
     exe, r = arg
-    tag, topo, threads, records, maxlen, seed, delay = r
+    tag, topo, threads, records, maxlen, seed, delay, per_round = r
     env = dict(os.environ)
     env.update(driver.SAN_ENV)
     try:
-        p = subprocess.run([exe, str(topo), str(threads), str(records), str(maxlen), str(seed), str(delay)],
+        p = subprocess.run([exe, str(topo), str(threads), str(records), str(maxlen), str(seed), str(delay),
+                            str(per_round)],
                            capture_output=True, env=env, timeout=900)
     except subprocess.TimeoutExpired:
         return r, None, "", "", True
@@ -67,9 +83,9 @@ def _run(arg):
 
 
 def evaluate(run_, r, rc, out, err, wd, stats, orders, samples):
-    tag, topo, threads, records, maxlen, seed, delay = r
+    tag, topo, threads, records, maxlen, seed, delay, per_round = r
     case = {"build": tag, "topology": topo, "threads": threads, "records": records, "maxlen": maxlen,
-            "seed": seed, "inner_delay_permille": delay}
+            "seed": seed, "inner_delay_permille": delay, "records_per_round": per_round}
     if wd:
         run_.inconc("wall-clock watchdog fired for %r" % (r,))
         return
@@ -92,6 +108,7 @@ def evaluate(run_, r, rc, out, err, wd, stats, orders, samples):
     stats["buffer-entries"] += int(kv["entries"])
     stats["entries-while-another-thread-was-logging"] += int(kv["contended"])
     stats["thread-switches-in-output"] += int(kv["switches"])
+    stats["quiescent-points-checked"] += int(kv.get("rounds", 0))
     if int(kv["contended"]) > 0 and not vs:
         orders.add(kv["order_hash"])
     if not vs and len(samples) < 4 and stats["runs:" + TOPO[topo]] == 1:
@@ -111,7 +128,7 @@ def run(tier, replay=None):
         with open(replay) as fh:
             c = json.load(fh)["case"]
         runs = [(c["build"], c["topology"], c["threads"], c["records"], c["maxlen"], c["seed"],
-                 c["inner_delay_permille"])] * 10
+                 c["inner_delay_permille"], c.get("records_per_round", 0))] * 10
     else:
         runs = plan(tier, run_.seed)
     exes = {tag: build.build_exe(tag, ["mtlog.cpp"]) for tag in sorted({r[0] for r in runs})}
@@ -131,4 +148,5 @@ def run(tier, replay=None):
     return run_.finish(len(runs), len(orders) if not replay else 2, RULE,
                        records=stats.get("records", 0), distinct_thread_orders=len(orders),
                        tsan_reports=stats.get("tsan-reports", 0),
-                       contended_entries=stats.get("entries-while-another-thread-was-logging", 0))
+                       contended_entries=stats.get("entries-while-another-thread-was-logging", 0),
+                       quiescent_points_checked=stats.get("quiescent-points-checked", 0))
